@@ -158,6 +158,33 @@ def run(ctx):
                                disc=f"fallback|{pn}")
     ctx.count("fresh_fallbacks_in_classes_holding_a_source", n_fb)
 
+    # ------------------------------------------------------------ the random stream is consumed the same way whatever the diagnostics setting
+    # a draw (from the flow, a generator, a key split) under a test of the logging state makes every later draw of the run depend on the log level
+    DRAWS = {"sample", "sample_and_log_prob", "rsample", "choice", "uniform", "normal", "standard_normal", "random", "split", "integers", "permutation",
+             "shuffle", "rand", "randn", "multinomial", "draw_initial_samples", "resample"}
+    DIAG = {"isEnabledFor", "getEffectiveLevel"}
+    n_diag = 0
+    for f in repo.all_functions():
+        par = None
+        for n in walk_no_nested(f.node):
+            if not isinstance(n, ast.If):
+                continue
+            t = n.test
+            is_diag = any((isinstance(x, ast.Attribute) and (x.attr in DIAG or (x.attr == "level" and "log" in ast.unparse(x.value).lower()))) or (isinstance(x, ast.Name) and x.id in ("__debug__", "verbose", "debug"))
+                          for x in ast.walk(t))
+            if not is_diag:
+                continue
+            n_diag += 1
+            polar = [n.body, n.orelse]
+            draws = [c for blk in polar for st_ in blk for c in ast.walk(st_) if isinstance(c, ast.Call) and isinstance(c.func, ast.Attribute) and c.func.attr in DRAWS
+                     and not (isinstance(c.func.value, ast.Name) and c.func.value.id in ("logger", "logging", "str", "os"))]
+            ctx.decide(not draws, "C20.fresh", f.ident, loc_of(f, draws[0] if draws else n),
+                       "no random draw depends on the diagnostics setting",
+                       (f"`{ast.unparse(draws[0])[:60]}` is executed only when `{ast.unparse(t)[:50]}` holds: it consumes the seeded stream (torch's global generator / the flow's key / the "
+                        "generator), so every later draw of the run -- and the result -- changes with the log level although seed, key and generator are the same") if draws else "",
+                       disc=f"diag|{n_diag}")
+    ctx.count("diagnostic_guards_scanned", n_diag)
+
     # ------------------------------------------------------------ random-source parameters are effectual
     n_params = 0
     for f in repo.all_functions(include_nested=False):
@@ -577,7 +604,11 @@ MUTANTS += [
     M("generator parameter hoisted to the base sampler constructor", "src/aspire/samplers/base.py", "preconditioning_transform: Callable | None = None,\n    ):\n        self.prior_flow = prior_flow",
       "preconditioning_transform: Callable | None = None,\n        rng=None,\n    ):\n        self.rng = rng\n        self.prior_flow = prior_flow", "C20.held"),
 ]
+MUTANTS += [
+    M("debug-only sanity check draws from the trained flow", "src/aspire/aspire.py", "history = self.flow.fit(samples.x, **kwargs)", "history = self.flow.fit(samples.x, **kwargs)\n        if logger.isEnabledFor(logging.DEBUG):\n            logger.debug(\"flow mean %s\", self.flow.sample(100).mean(0))", "C20.fresh"),
+]
 NEUTRALS = [
+    M("debug-only summary of the training data (no draw)", "src/aspire/aspire.py", "history = self.flow.fit(samples.x, **kwargs)", "history = self.flow.fit(samples.x, **kwargs)\n        if logger.isEnabledFor(logging.DEBUG):\n            logger.debug(\"data mean %s\", samples.x.mean(0))"),
     __import__("aspire_sa.rules.smcloop", fromlist=["HELPER_NEUTRAL"]).HELPER_NEUTRAL,
     M("torch flow seeded unless seed is None", "src/aspire/flows/torch/flows.py", "torch.manual_seed(seed)", "if seed is not None:\n            torch.manual_seed(seed)"),
     M("fallback written as a conditional expression", _B, "self.rng = rng or np.random.default_rng()\n        self._adapative_target_efficiency = False", "self.rng = rng if rng is not None else np.random.default_rng()\n        self._adapative_target_efficiency = False"),
